@@ -18,7 +18,7 @@ MC_INV = {
     "C02": ["C02_Populated", "C02_NoSelfWire", "C02_NoReentry", "C02_FailIffSelfOnly"],
     "C03": ["C03_NoStale", "C04_PublishedClean", "C02_NoReentry"],
     "C04": ["C04_EarlyOnce", "C04_OneEarlyRef", "C04_PublishedClean", "C04_CleanFailure", "C04_NoHalfBuilt"],
-    "C05": ["C05_Once", "C05_Lazy"],
+    "C05": ["C05_Once", "C05_Lazy", "C05_LazyProcs", "C05_ProcsBeforeRefresh"],
     "C09": ["C09_FaultFails", "C04_CleanFailure"],
 }
 MC_PROPS = {
@@ -31,7 +31,7 @@ MON_INV = {
     "C02": ["M_C02_NoReentry", "M_C02_NoSelfWire", "M_C02_Populated", "M_C02_FailIffSelfOnly"],
     "C03": ["M_C03_NoStale", "M_C04_PublishedClean", "M_C02_NoReentry"],
     "C04": ["M_C04_EarlyOnce", "M_C04_OneEarlyRef", "M_C04_PublishedClean", "M_C04_CleanFailure", "M_C04_NoHalfBuilt"],
-    "C05": ["M_C05_Order", "M_C05_Once", "M_C05_DepsFirst", "M_C05_PopulatedBeforeInit", "M_C05_AllCallbacks", "M_C05_Lazy"],
+    "C05": ["M_C05_Order", "M_C05_Once", "M_C05_DepsFirst", "M_C05_PopulatedBeforeInit", "M_C05_AllCallbacks", "M_C05_Lazy", "M_C05_LazyProcs"],
     "C09": ["M_C09_NoPanic", "M_C09_FaultFails", "M_C04_CleanFailure"],
 }
 MON_PROPS = {"C01": ["M_C01_PublishedStable"], "C02": [], "C03": ["M_C01_PublishedStable"],
@@ -39,8 +39,8 @@ MON_PROPS = {"C01": ["M_C01_PublishedStable"], "C02": [], "C03": ["M_C01_Publish
 
 # exhaustive families: (module, N, MaxLookups, extra constants, liveness?)
 MC_FAMS = {
-    ("C01", "quick"): [("MCEngB", 2, 0, {}, False), ("MCEngA", 3, 0, {}, False)],
-    ("C01", "thorough"): [("MCEngA", 3, 0, {}, False), ("MCEngS", 4, 0, {}, False), ("MCEngL2", 3, 0, {}, False),
+    ("C01", "quick"): [("MCEngB", 2, 0, {}, False), ("MCEngA", 3, 0, {}, False), ("MCEngW2", 2, 0, {}, False)],
+    ("C01", "thorough"): [("MCEngA", 3, 0, {}, False), ("MCEngS", 4, 0, {}, False), ("MCEngL2", 3, 0, {}, False), ("MCEngW2", 2, 0, {}, False),
                           ("MCEngB", 3, 0, {}, False)],
     ("C02", "quick"): [("MCEngB", 2, 0, {}, True), ("MCEngS", 3, 0, {}, True), ("MCEngL1", 3, 0, {}, False)],
     ("C02", "thorough"): [("MCEngS", 4, 0, {}, True), ("MCEngA", 3, 0, {}, False), ("MCEngL1", 3, 0, {}, False),
@@ -52,8 +52,8 @@ MC_FAMS = {
     ("C04", "quick"): [("MCEngF2", 2, 2, {}, False)],
     ("C04", "thorough"): [("MCEngF2", 2, 3, {}, False), ("MCEngF3", 3, 1, {}, False), ("MCEngFW2", 2, 1, {}, False),
                           ("MCEngF3L", 3, 1, {}, False)],
-    ("C05", "quick"): [("MCEngL1", 3, 0, {}, False), ("MCEngL2", 3, 0, {}, False)],
-    ("C05", "thorough"): [("MCEngL1", 3, 0, {}, False), ("MCEngL2", 3, 0, {}, False), ("MCEngA", 3, 0, {}, False),
+    ("C05", "quick"): [("MCEngL1", 3, 0, {}, False), ("MCEngL2", 3, 0, {}, False), ("MCEngP", 2, 0, {}, False)],
+    ("C05", "thorough"): [("MCEngL1", 3, 0, {}, False), ("MCEngL2", 3, 0, {}, False), ("MCEngA", 3, 0, {}, False), ("MCEngP", 3, 0, {}, False),
                           ("MCEngL1", 4, 0, {}, False)],
     ("C09", "quick"): [("MCEngF2", 2, 0, {}, False)],
     ("C09", "thorough"): [("MCEngF2", 2, 1, {}, False), ("MCEngF3", 3, 0, {}, False), ("MCEngF3L", 3, 0, {}, False),
@@ -137,8 +137,10 @@ def scenarios_for(prop, tier, rng):
             add(el.scenario(3, s, l, order=perm(rng, 3), reg_order=perm(rng, 3), seed=rng.randint(0, 2 ** 31), sid=sid()))
         for n, cnt in ([(3, 300), (4, 250), (6, 120), (8, 60)] if not thorough else [(3, 3000), (4, 4000), (5, 2000), (6, 1500), (8, 800)]):
             for _ in range(cnt):
+                # C01 also with substituting post-processors: holders on a cycle get an early proxy, and whatever
+                # version is published must be the one every holder and every lookup sees
                 add(el.rand_scenario(rng, n, p_edge=rng.choice([0.2, 0.35, 0.6]), lookups=2 if prop == "C01" else 0,
-                                     opt=(prop == "C02"), sid=sid()))
+                                     opt=(prop == "C02"), wraps=(rng.choice([0, 0.3, 0.6]) if prop == "C01" else False), sid=sid()))
         shapes = ["chain", "ring", "rings2", "diamond", "fanin", "cycletail", "dense"]
         sizes = [12, 25, 40] if not thorough else [12, 25, 40, 80, 120, 200]
         for n in sizes:
@@ -203,10 +205,10 @@ def scenarios_for(prop, tier, rng):
                 lz = [x for x in nodes if rng.random() < 0.4]
                 so = rng.random() < 0.5
                 add(el.scenario(3, s, l, lazy=lz, self_opt=[so] * 3, slice_opt=[so] * 3, order=perm(rng, 3), reg_order=perm(rng, 3),
-                                seed=rng.randint(0, 2 ** 31), sid=sid()))
+                                seed=rng.randint(0, 2 ** 31), sid=sid(), procs=[rng.random() < 0.5 for _ in range(rng.randint(0, 2))]))
         for n, cnt in ([(3, 300), (4, 300), (6, 100), (8, 50)] if not thorough else [(3, 4000), (4, 5000), (5, 2500), (6, 1500), (8, 600)]):
             for _ in range(cnt):
-                add(el.rand_scenario(rng, n, p_edge=rng.choice([0.2, 0.35, 0.6]), lazies=rng.choice([0.2, 0.5]), sid=sid()))
+                add(el.rand_scenario(rng, n, p_edge=rng.choice([0.2, 0.35, 0.6]), lazies=rng.choice([0.2, 0.5]), sid=sid(), procs=True))
         for n in ([12, 25, 40] if not thorough else [12, 25, 40, 80, 150]):
             for sh in ["chain", "diamond", "cycletail", "fanin", "dense", "ring"]:
                 lz = [i for i in range(1, n + 1) if rng.random() < 0.3]
